@@ -48,6 +48,14 @@ PROPS = {
         assumptions=["'input tree left unmodified' on the restore side is the static fact C17_restore_resolves_before_it_mutates plus the oracle's deep comparison; on the decorate side the static fact that no decorateNode statement assigns through n plus the oracle's ast dump comparison",
                      "the error lint covers the listed hand-written functions; generated decorateNode cases are covered by the translator's statement shapes"],
     ),
+    "C08": dict(
+        unknown_keys=["restorer.go", "decorator.go"],
+        trusted_base=[KERNEL, TRANSLATOR, HARNESS + "; hand model Model/Merge.v of decorateSelectorExpr/mergeDecorations tied by correspondence (the same source decorated without and with the identifier resolver, 13 slots vs the collapsed identifier); hand model Model/Imports.v (corresponded, C07); restorer state machine incl. restoreIdent's expansion (corresponded on import-managed files)",
+                      "assumption P: byte equality of the printed file follows from equal comments/line breaks/tokens only through go/printer; the byte-level claim itself is checked on the implementation"],
+        assumptions=["C08_merged_spacing_renders_the_same_line_breaks needs mergeDecorations' endsWithNewLine=false to describe the restorer's state where the merged list is rendered (C08_merge_needs_matching_state shows the hypothesis is needed); the decorator never attaches a line break to X when the selector itself has one -- covered by the byte-level oracle",
+                     "accurate resolvers: goast for identifiers (files it refuses are skipped: C09), guess seeded with the real package names / simple for package names",
+                     "gotypes as decorator resolver is exercised under C09/C10 (needs a type-checked program)"],
+    ),
     "C11": dict(
         unknown_keys=["decorator-node-generated.go", "restorer-generated.go", "dst.go"],
         trusted_base=[KERNEL, TRANSLATOR + " (decorator-node-generated.go -> Gen/DecTbl.v statement by statement: statements touching the node maps, calling decorateNode or assigning through the input ast must be recognised exactly; restorer-generated.go -> Gen/RestTbl.v; dst.go -> Gen/Universe.v)",
